@@ -249,15 +249,16 @@ class Engine:
     """runs the interpreter over a set of bodies with optional entry facts; one level of caller-derived
     preconditions for private helpers is available through `refine_from_callers`."""
 
-    def __init__(self, prog):
+    def __init__(self, prog, invariants=None):
         self.prog = prog
         self.cache = {}
+        self.invariants = invariants or {}
 
-    def analyze(self, path, entry=None):
-        key = (path, repr(sorted((entry or {}).items())))
+    def analyze(self, path, entry=None, depth=0, invariants=None):
+        key = (path, repr(sorted((str(k), repr(v)) for k, v in (entry or {}).items())), depth > 0)
         if key not in self.cache:
             b = self.prog.body(path)
-            an = Analyzer(b, self.prog, entry=entry)
+            an = Analyzer(b, self.prog, entry=entry, engine=self, invariants=invariants if invariants is not None else self.invariants, depth=depth)
             an.run()
             self.cache[key] = an
         return self.cache[key]
